@@ -1065,6 +1065,10 @@ def maximal_programs():
     L.append(Line(["\tft_lstlast(", lv, ")->next->prev = new_node(", av, ", ", bv, ");"], "stmt", 1, 0, stmt="assign"))
     L.append(Line(["\tft_lstlast(", lv, ")->next->next->content = pick(", av, " && ", bv, ", ", av, " || ", bv, ");"], "stmt", 1, 0, stmt="assign"))
     L.append(Line(["\tft_lstlast(", lv, ")->next->prev->size += ", av, ";"], "stmt", 1, 0, stmt="opassign"))
+    # subscripts and `.member` in the chain (repaired in the follow-up fix: `f(x)[n] = g(p, q);`, `f(x)->tab[n] = ...` were fatal too)
+    L.append(Line(["\tget_tab(", lv, ")[", av, "] = new_node(", av, ", ", bv, ");"], "stmt", 1, 0, stmt="assign"))
+    L.append(Line(["\tget_tab(", lv, ")[", av, "].next = new_node(", av, ", ", bv, ");"], "stmt", 1, 0, stmt="assign"))
+    L.append(Line(["\tft_lstlast(", lv, ")->tab[", av, "][", bv, "]->size += pick(", av, " && ", bv, ", ", bv, ");"], "stmt", 1, 0, stmt="opassign"))
     L.append(Line(["}"], "func_close", 0, 0))
     out.append(Prog(name, L, dict(nfuncs=1, maximal="calls followed by chains of member accesses as assignment targets")))
     for prog in out:
